@@ -126,8 +126,10 @@ def reader_layout(ctx, cfg, fn, agg_suffix, param='bytes'):
                                             dsc = zf.desc_place(dsc[2]['args'][0]['pl'])
                                         else:
                                             break
-                                    if dsc[0] == 'sub' and dsc[1][0] == 'cont' and dsc[1][1] == k:
-                                        rng = (tfmt(dsc[2][1]), tfmt(dsc[2][2]))
+                                    o = zf.slice_origin(dsc)
+                                    if o is not None and o[0][0] == 'cont' and o[0][1] == k and not o[0][2] and o[1] is not None and o[2] is not None \
+                                            and dsc[0] != 'cont':
+                                        rng = (tfmt(o[1]), tfmt(o[2]))
                         break
                     l = pl['l']
                     continue
@@ -476,3 +478,216 @@ def rule_serde_symmetry(ctx, cfg='prod-all', scope=('bbsplus::keys::', 'bbsplus:
             yield Ob('RF-N', '%s#serde:variants-written-are-read' % adt_path, written <= known and bool(written), 'every variant name written is recognised by the reader',
                      b.span, fact={'written': sorted(written), 'recognised': sorted(known)}, expected='written ⊆ recognised')
     yield Ob('RF-N', 'crate#serde-type-census', n >= min_types, 'types with compiled Serialize impls examined', '', fact=n, expected='>= %d' % min_types, nontrivial=False)
+
+
+# -------------------------------------------------------------------------------- RF-M (semantic): which generator meets which scalar
+def _elem_origin(zf, op, depth=0):
+    """where a value was read from: ('idx', container desc, index term, index is an element of an index list) for c[i] / c.get(i) / &c[i],
+    ('it', container desc, iteration id) for the loop variable / closure argument of an iteration (component of a zip),
+    ('call', callee, call) for the result of a call, None if unknown.  Field projections (`.value`), derefs, copies, clones and `?` are skipped."""
+    if depth > 16 or op is None or op.get('k') not in ('copy', 'move'):
+        return None
+    body, fd = zf.body, zf.fd
+    pl = op['pl']
+    ps = pl.get('p', [])
+    l = pl['l']
+    idx = [p for p in ps if p['k'] == 'index']
+    if idx:
+        it = zf.term_op({'k': 'copy', 'pl': {'l': idx[0]['l']}})
+        via_list = it is not None and it[0] is not None and it[0] in zf.elem_of
+        return ('idx', zf.desc_local(l), it, via_list)
+    cidx = [p for p in ps if p['k'] == 'cindex']
+    if cidx:
+        return ('idx', zf.desc_local(l), (None, int(cidx[0].get('off', cidx[0].get('i', 0)))), False)
+    downcast = any(p['k'] == 'downcast' for p in ps)
+    fields = [p for p in ps if p['k'] == 'field']
+    if fd.is_param(l) and body.kind == 'Closure' and l >= 2:
+        # closure argument (or a component of a tuple argument)
+        ctx = zf.closure_ctx()
+        if ctx is not None and ctx[3] is not None:
+            pzf, cb, caps, (bi, t) = ctx
+            comps = pzf.iter_components(t['args'][0]) if t['args'] else None
+            comp = [f for f in fields if f['n'].isdigit() and not f.get('adt')]
+            if comps:
+                n = int(comp[0]['n']) if (comp and len(comps) > 1) else 0
+                if n < len(comps) and comps[n] is not None:
+                    return ('it', comps[n], ('closure', body.path), pzf)
+        return None
+    if downcast:
+        o = zf._origin_call(l)
+        if o and (o[1].get('callee') or '') == 'std::iter::Iterator::next' and o[1]['args']:
+            comps = zf.iter_components(o[1]['args'][0])
+            comp = [f for f in fields if f['n'].isdigit() and not str(f.get('adt', '')).startswith(('std::option', 'core::option'))]
+            if comps:
+                n = int(comp[0]['n']) if (comp and len(comps) > 1) else 0
+                if n < len(comps) and comps[n] is not None:
+                    return ('it', comps[n], ('loop', o[0]), zf)
+            return None
+        if o and (o[1].get('callee') or '') in ('core::slice::<impl [T]>::get', 'core::slice::<impl [T]>::get_mut', 'std::ops::Index::index') \
+                and len(o[1]['args']) == 2 and o[1]['args'][0]['k'] in ('copy', 'move'):
+            it = zf.term_op(o[1]['args'][1])
+            return ('idx', zf.desc_place(o[1]['args'][0]['pl']), it, it is not None and it[0] is not None and it[0] in zf.elem_of)
+        if o and (o[1].get('callee') or '') in ('core::slice::<impl [T]>::split_first', 'core::slice::<impl [T]>::first') and o[1]['args'][0]['k'] in ('copy', 'move'):
+            comp = [f for f in fields if f['n'].isdigit() and not str(f.get('adt', '')).startswith(('std::option', 'core::option'))]
+            if not comp or comp[0]['n'] == '0':
+                return ('idx', zf.desc_place(o[1]['args'][0]['pl']), (None, 0), False)
+        if o:
+            tgt = local_target(zf.za.eng, o[1])
+            return ('call', tgt or (o[1].get('callee') or ''), o[1], zf)
+        return None
+    d = zf.single_def(l)
+    if d is None:
+        return None
+    kind, bi, x = d
+    if kind == 'assign' and not x['dst'].get('p'):
+        rv = x['rv']
+        if rv['k'] in ('use', 'cast') and rv['op']['k'] in ('copy', 'move'):
+            return _elem_origin(zf, rv['op'], depth + 1)
+        if rv['k'] in ('ref', 'rawptr'):
+            return _elem_origin(zf, {'k': 'copy', 'pl': rv['pl']}, depth + 1)
+        return None
+    if kind == 'call':
+        cal = x.get('callee') or ''
+        if cal in ('std::ops::Index::index', 'std::ops::IndexMut::index_mut', 'core::slice::<impl [T]>::get', 'core::slice::<impl [T]>::get_unchecked') \
+                and len(x['args']) == 2 and x['args'][0]['k'] in ('copy', 'move'):
+            it = zf.term_op(x['args'][1])
+            via_list = it is not None and it[0] is not None and it[0] in zf.elem_of
+            return ('idx', zf.desc_place(x['args'][0]['pl']), it, via_list)
+        if cal in ('std::ops::Deref::deref', 'std::clone::Clone::clone', 'std::ops::Try::branch', 'std::option::Option::<T>::ok_or', 'std::option::Option::<T>::ok_or_else',
+                   'std::option::Option::<T>::unwrap', 'std::option::Option::<T>::expect', 'std::result::Result::<T, E>::map_err', 'std::ops::Neg::neg',
+                   'std::option::Option::<&T>::copied', 'std::option::Option::<&T>::cloned') and x['args']:
+            return _elem_origin(zf, x['args'][0], depth + 1)
+        tgt = local_target(zf.za.eng, x)
+        return ('call', tgt or cal, x, zf)
+    return None
+
+
+def _is_generator_values(zf, root):
+    """root container descriptor is the `values` of a Generators parameter / local"""
+    if root is None:
+        return False
+    if root[0] == 'callfield':      # `.values` of a generator set built in this function (Generators::create(..))
+        return bool(root[3]) and root[3][-1] == 'values' and 'Generators' in zf.body.local_ty(root[1])
+    if root[0] != 'cont':
+        return False
+    return bool(root[2]) and root[2][-1] == 'values' and 'Generators' in zf.body.local_ty(root[1])
+
+
+def generator_pairings(ctx, cfg, fn):
+    """every `point * scalar` in fn (and in the closures it creates) whose point is an element of a generator list:
+    dict(kind='domain'|'message'|'indexed'|'other', start=offset of the point's slice in generators.values (or None if the slice is a parameter),
+    gpos / mpos position terms, same_iteration, where)"""
+    prog, za = ctx.prog(cfg), ctx.zone(cfg)
+    out = []
+    bodies = [fn] + [cb.path for cb in prog.closures_of(fn)]
+    for path in bodies:
+        b = prog.bodies[path]
+        if b.kind != 'Closure':
+            za.summary(path)
+        zf = za.zf(path)
+        for bi, t in b.calls():
+            cal = t.get('callee') or ''
+            if cal not in ('std::ops::Mul::mul',) or len(t['args']) != 2:
+                continue
+            tys = [b.local_ty(a['pl']['l']) if a['k'] in ('copy', 'move') else a.get('ty', '') for a in t['args']]
+            if not any('G1Projective' in x for x in tys):
+                continue
+            pi = 0 if 'G1Projective' in tys[0] else 1
+            po, so = _elem_origin(zf, t['args'][pi]), _elem_origin(zf, t['args'][1 - pi])
+            if po is None or po[0] not in ('idx', 'it'):
+                continue
+            ozf = po[3] if po[0] == 'it' else zf
+            org = ozf.slice_origin(po[1])
+            if org is None:
+                continue
+            root, gs, ge = org
+            is_gen = _is_generator_values(ozf, root)
+            is_param_slice = root[0] == 'cont' and ozf.fd.is_param(root[1]) and not root[2] and 'G1Projective' in ozf.body.local_ty(root[1])
+            if not (is_gen or is_param_slice):
+                continue
+            rec = {'where': '%s L%s' % (b.file(), t['line']), 'start': gs if is_gen else None, 'helper_param': root[1] if is_param_slice else None,
+                   'gpos': po[2] if po[0] == 'idx' else None, 'indexed_by_list': po[0] == 'idx' and po[3], 'kind': 'other', 'mpos': None, 'same_iteration': None,
+                   'mstart': None, 'fn': path}
+            if so is not None and so[0] == 'call' and str(so[1]).endswith('calculate_domain'):
+                rec['kind'] = 'domain'
+            elif so is not None and so[0] in ('idx', 'it'):
+                szf = so[3] if so[0] == 'it' else zf
+                sorg = szf.slice_origin(so[1])
+                sty = szf.body.local_ty(sorg[0][1]) if sorg and sorg[0][0] == 'cont' else ''
+                if sorg and 'BBSplusMessage' in sty:
+                    rec['kind'] = 'message'
+                    rec['mstart'] = sorg[1]
+                    rec['mpos'] = so[2] if so[0] == 'idx' else None
+                    if po[0] == 'it' and so[0] == 'it':
+                        rec['same_iteration'] = po[2] == so[2]
+                    elif po[0] == 'idx' and so[0] == 'idx':
+                        rec['same_iteration'] = None
+                    else:
+                        rec['same_iteration'] = False
+            out.append(rec)
+    return out
+
+
+def rule_generator_pairing(ctx, cfg='prod-all', fns=None):
+    """B, T2 and Bv are sums of generator * scalar products in which message i meets H_i = generators.values[i + 1] and the domain meets
+    Q_1 = generators.values[0].  Decided on every product whose point is an element of a generator list: the slice the point is taken from
+    starts at offset 1 of `values` (through any nesting of [1..], split_first, get(..)), its position equals the position of the message it is
+    multiplied with (same index term, or the two sides of one zip), and the point multiplied with the domain sits at offset 0.  When the
+    products live in a helper that receives the H slice as a parameter, the helper is judged on positions and its callers on the offset."""
+    prog, eng, za = ctx.prog(cfg), ctx.eng(cfg), ctx.zone(cfg)
+    fns = fns or ['bbsplus::signature::core_sign', 'bbsplus::signature::core_verify', 'bbsplus::proof::proof_init', 'bbsplus::proof::proof_verify_init',
+                  'bbsplus::blind::calculate_b']
+    n_msg = 0
+    for fn in fns:
+        if fn not in prog.bodies:
+            raise AnchorMissing(fn)
+        todo = [(fn, None)]
+        # helpers that receive a slice of generator points
+        for bi, t in prog.bodies[fn].calls():
+            tgt = local_target(eng, t)
+            if tgt and tgt in prog.bodies and tgt != fn and any('[bls12_381_plus::G1Projective]' in prog.bodies[tgt].local_ty(k) for k in range(1, prog.bodies[tgt].arg_count + 1)):
+                todo.append((tgt, (fn, t)))
+        for (f, via) in todo:
+            recs = generator_pairings(ctx, cfg, f)
+            for k, r in enumerate(recs):
+                key = '%s#pairing[%d]' % (f if via is None else '%s>%s' % (fn, f.split('::')[-1]), k)
+                start = r['start']
+                if r['helper_param'] is not None:
+                    if via is None:
+                        continue          # a slice parameter of the listed function itself: nothing to anchor the offset to
+                    czf = za.zf(fn)
+                    arg = via[1]['args'][r['helper_param'] - 1]
+                    org = czf.slice_origin(czf.desc_place(arg['pl'])) if arg['k'] in ('copy', 'move') else None
+                    start = org[1] if (org and _is_generator_values(czf, org[0])) else None
+                if r['kind'] == 'domain':
+                    pos = ZoneSum(start, r['gpos'])
+                    yield Ob('RF-M', key + ':Q1', pos == (None, 0), 'the domain scalar multiplies generators.values[0]', r['where'],
+                             fact={'slice_start': tfmt(start), 'index': tfmt(r['gpos'])}, expected='values[0]')
+                elif r['kind'] == 'message':
+                    n_msg += 1
+                    ok_off = start == (None, 1) and r['mstart'] == (None, 0)
+                    if r['gpos'] is not None and r['mpos'] is not None:
+                        ok_pos = r['gpos'] == r['mpos'] or bool(r['indexed_by_list'])
+                    else:
+                        ok_pos = r['same_iteration'] is True
+                    yield Ob('RF-M', key + ':H-offset', ok_off, 'the generators multiplied with messages are taken from generators.values[1..] (H_i = values[i + 1])', r['where'],
+                             fact={'generator_slice_start': tfmt(start), 'message_slice_start': tfmt(r['mstart'])}, expected='1 / 0')
+                    yield Ob('RF-M', key + ':position', ok_pos, 'message i is multiplied with the generator at the same position of the H slice', r['where'],
+                             fact={'generator_index': tfmt(r['gpos']), 'message_index': tfmt(r['mpos']), 'same_iteration': r['same_iteration'],
+                                   'generator_index_is_element_of_index_list': bool(r['indexed_by_list'])}, expected='equal positions')
+                elif r['indexed_by_list'] or r['kind'] == 'other':
+                    if start is not None:
+                        yield Ob('RF-M', key + ':H-offset', start == (None, 1) or (start == (None, 0) and r['gpos'] is not None and r['gpos'][0] is None),
+                                 'generators addressed by message position are taken from generators.values[1..]', r['where'],
+                                 fact={'generator_slice_start': tfmt(start), 'index': tfmt(r['gpos'])}, expected='1')
+    yield Ob('RF-M', 'crate#message-pairings', n_msg >= 3, 'generator / message products examined', '', fact=n_msg, expected='>= 3', nontrivial=False)
+
+
+def ZoneSum(a, b):
+    if a is None or b is None:
+        return None
+    if a[0] is None:
+        return (b[0], a[1] + b[1])
+    if b[0] is None:
+        return (a[0], a[1] + b[1])
+    return None
